@@ -254,7 +254,7 @@ def r19_6(chk, P):
                'falsifies: a second call on the same state moves the window (and the data) again')
 
 
-def _linform(F, e, defs, depth=0):
+def _linform(F, e, defs, depth=0, atom=None):
     """expression as a linear form over named locals with rational coefficients: {name: Fraction, 1: Fraction} or None.
     Single-definition locals that are themselves linear in others are expanded; the block-size locals stay symbols"""
     from fractions import Fraction
@@ -265,14 +265,14 @@ def _linform(F, e, defs, depth=0):
     if k == 'ref' and nd['decl'].get('kind') in ('var', 'param'):
         d = defs.get(nd['decl'].get('id'))
         if d is not None and depth < 4:
-            sub = _linform(F, d, defs, depth + 1)
-            if sub is not None and F.ex[F.strip_casts(d)]['k'] in ('bin', 'ref', 'int'):
+            sub = _linform(F, d, defs, depth + 1, atom)
+            if sub is not None and F.ex[F.strip_casts(d)]['k'] in (('bin', 'ref', 'int') if atom is None else ('bin', 'ref', 'int', 'sub', 'member')):
                 dn = F.ex[F.strip_casts(d)]
                 if not (dn['k'] == 'bin' and dn['op'] in ('>>', '<<')):
                     return sub
         return {nd['decl']['name']: Fraction(1)}
     if k == 'bin' and nd['op'] in ('+', '-'):
-        a, b = _linform(F, nd['c'][0], defs, depth), _linform(F, nd['c'][1], defs, depth)
+        a, b = _linform(F, nd['c'][0], defs, depth, atom), _linform(F, nd['c'][1], defs, depth, atom)
         if a is None or b is None:
             return None
         out = dict(a)
@@ -280,7 +280,7 @@ def _linform(F, e, defs, depth=0):
             out[kk] = out.get(kk, 0) + (v if nd['op'] == '+' else -v)
         return out
     if k == 'bin' and nd['op'] in ('/', '*', '>>', '<<'):
-        a, b = _linform(F, nd['c'][0], defs, depth), _linform(F, nd['c'][1], defs, depth)
+        a, b = _linform(F, nd['c'][0], defs, depth, atom), _linform(F, nd['c'][1], defs, depth, atom)
         if a is None or b is None:
             return None
         if set(b) <= {1}:
@@ -298,6 +298,8 @@ def _linform(F, e, defs, depth=0):
             return {kk: v * c for kk, v in b.items()}
         return None
     if k in ('sub', 'member'):
+        if atom is not None:
+            return {atom(F.strip_casts(e)): Fraction(1)}
         return {'@' + F.s(F.strip_casts(e)): Fraction(1)}        # an opaque term (a channel vector)
     return None
 
